@@ -27,6 +27,7 @@ import BioCantor.Proofs.AlgContains
 import BioCantor.Proofs.AlgSort
 import BioCantor.Proofs.AlgCgranges
 import BioCantor.Proofs.AlgEq
+set_option autoImplicit false   -- an unresolved name in a statement must be an error, never a bound variable
 namespace BioCantor.Props.C02
 open BioCantor BioCantor.Spec BioCantor.Model BioCantor.Proofs
 
